@@ -42,7 +42,16 @@ func TestC16(t *testing.T) {
 		} else {
 			signed = GenTree(rt, GenOpts{Links: true, EmptyDirs: true, MaxMid: 200 * KiB}, rapid.Uint64Range(0, 1<<20).Draw(rt, "poolseed"))
 		}
-		dmode := rapid.IntRange(0, 5).Draw(rt, "damage") // 0 none, 1 only last file, 2 everything deleted, else faults
+		manyBlocks := !many && rapid.IntRange(0, 39).Draw(rt, "manyblocks") == 0
+		if manyBlocks {
+			// one file with more blocks than the wound channel has slots (every validated block is a
+			// message), followed by another file
+			nb := rapid.IntRange(1100, 1400).Draw(rt, "nblocks")
+			signed = Tree{"a_big.bin": &Entry{Kind: KFile, Data: Bytes(rapid.Uint64().Draw(rt, "bigseed"), nb*BlockSize+rapid.IntRange(0, 5000).Draw(rt, "bigtail"))},
+				"z_small.bin": &Entry{Kind: KFile, Data: Bytes(7, 1000)}}
+			Ev.Probe("file_with_more_blocks_than_channel_slots")
+		}
+		dmode := rapid.IntRange(0, 6).Draw(rt, "damage") // 0 none, 1 only last file (first byte), 6 only last file (last byte), 2 everything deleted, else faults
 		damaged := signed
 		var applied []Fault
 		files := signed.Files()
@@ -53,6 +62,12 @@ func TestC16(t *testing.T) {
 			if len(applied) == 0 {
 				damaged, applied = ApplyFaults(signed, []Fault{{Kind: "fill", Path: files[len(files)-1], N: 3, Seed: 1}})
 			}
+		case dmode == 6 && len(files) > 0 && len(signed[files[len(files)-1]].Data) > 0:
+			last := files[len(files)-1]
+			damaged, applied = ApplyFaults(signed, []Fault{{Kind: "flip", Path: last, Off: len(signed[last].Data) - 1}})
+		case manyBlocks:
+			// damage in the first block of the big file (and sometimes its last)
+			damaged, applied = ApplyFaults(signed, []Fault{{Kind: "flip", Path: "a_big.bin", Off: rapid.IntRange(0, 100).Draw(rt, "bigflip")}})
 		case dmode == 2 || many:
 			damaged = signed.Clone()
 			for _, p := range files {
